@@ -560,7 +560,7 @@ func run(c *Ctx) {
 			cases = append(cases, genAvCase(c, c.Thorough() && i%100 == 0 || i%500 == 0))
 		}
 		// the HLS path: packetizers → hls.SegmentGenerator (audio re-framed into one PES per ~100 ms)
-		nhls := c.Budget(150, 4000)
+		nhls := c.Budget(150, 1200)
 		for i := 0; i < nhls; i++ {
 			cases = append(cases, genHlsCase(c))
 		}
